@@ -3,6 +3,7 @@ import Driver.X86
 import Driver.Arm
 import Driver.Hist
 import Driver.Counter
+import Driver.Arms
 namespace Driver
 
 def dispatch (line : String) : String :=
@@ -25,6 +26,8 @@ def dispatch (line : String) : String :=
       | "cnt" => handleCnt args obs
       | "cnthammer" => handleHammer args obs
       | "life" => handleLife args obs
+      | "armrun" => handleArmRun args obs
+      | "armcompile" => handleArmCompile args obs
       | _ => bad ("unknown-tag:" ++ tag)
     v.render
 
